@@ -31,7 +31,7 @@ def export(wd, module, consts, extra_cfg='', key_extra=''):
 
 
 def run(prop, tier, verdict, module, driver, pspec, classify, consts=None, mc_cfg=None, extra_cfg='',
-        quick_sample=None, min_count=1, nontrivial=None, driver_args=None, tv_env=None, label=None, extra_scenarios=None):
+        quick_sample=None, min_count=1, nontrivial=None, driver_args=None, tv_env=None, label=None, extra_scenarios=None, select=None, check_trace_count=True):
     t0 = time.time()
     seedv = vlib.seed()
     label = label or driver
@@ -46,7 +46,9 @@ def run(prop, tier, verdict, module, driver, pspec, classify, consts=None, mc_cf
     if len(allc) < min_count:
         raise Broken('%s exported only %d scenarios' % (module, len(allc)))
     scen = allc
-    if tier != 'thorough' and quick_sample and len(allc) > quick_sample:
+    if select:
+        scen = select(allc, random.Random(seedv), tier)
+    elif tier != 'thorough' and quick_sample and len(allc) > quick_sample:
         scen = random.Random(seedv).sample(allc, quick_sample)
     scen = list(scen) + list(extra_scenarios or [])
     for i, s in enumerate(scen):
@@ -74,7 +76,7 @@ def run(prop, tier, verdict, module, driver, pspec, classify, consts=None, mc_cf
     for l in open(trfile):
         if l.strip():
             lines_by_t.setdefault(json.loads(l).get('t'), []).append(l)
-    if len(lines_by_t) != len(scen):
+    if check_trace_count and len(lines_by_t) != len(scen):
         raise Broken('%s driver recorded %d of %d traces' % (driver, len(lines_by_t), len(scen)))
     for rj in rej:
         s = by_id.get(rj['t'], {})
